@@ -7,7 +7,7 @@
 (* prints every value with its reference encoding as a JSON test vector    *)
 (* for the real yabgp codec.                                               *)
 (***************************************************************************)
-EXTENDS WireUpdate, WireOpen, WireComm, TLCExt, Json
+EXTENDS WireMp, WireOpen, WireComm, TLCExt, Json
 
 CONSTANTS FAMILY      \* which vector family this run enumerates: "upd", "updvar", "cor", "open", "openrt", "notif", "rr", "ka"
 
@@ -30,6 +30,7 @@ Vecs == CASE FAMILY = "upd" -> UpdVecs [] FAMILY = "updvar" -> VarVecs [] FAMILY
           [] FAMILY = "comm" -> {[kind |-> "comm", sub |-> 16, u |-> x] : x \in ExtPool} \cup {[kind |-> "comm", sub |-> 8, u |-> x] : x \in StdPool}
                                  \cup {[kind |-> "comm", sub |-> 32, u |-> x] : x \in LargePool}
           [] FAMILY = "updap" -> {[kind |-> "updap", asn4 |-> TRUE, var |-> Canon, u |-> x.u, wids |-> x.wids, nids |-> x.nids] : x \in AddPathVecs}
+          [] FAMILY \in {"mp_ipv6", "mp_lu4", "mp_lu6", "mp_vpn4", "mp_vpn6", "mp_evpn", "mp_fs"} -> MpPool(SubSeq(FAMILY, 4, Len(FAMILY)))
           [] FAMILY = "rr" -> RRVecs [] FAMILY = "ka" -> {[kind |-> "ka", u |-> [x |-> 0]]}
 
 Bytes(v) ==
@@ -38,6 +39,7 @@ Bytes(v) ==
      [] v.kind = "notif" -> EncNotification(v.u.code, v.u.sub, v.u.data)
      [] v.kind = "rr" -> EncRouteRefresh(v.u.typ, v.u.afi, v.u.res, v.u.safi)
      [] v.kind = "ka" -> EncKeepalive
+     [] v.kind = "mp" -> EncMpUpdate(v)
      [] v.kind = "updap" -> EncUpdateAddPath(v.u, TRUE, v.wids, v.nids)
      [] v.kind = "comm" ->     \* an UPDATE announcing one prefix with the base attributes and this one community
           LET a == EncAttrs(Base(TRUE), TRUE, FALSE) \o AttrTLV(v.sub, v.u.o, FALSE)
@@ -55,6 +57,7 @@ RefWellFormed ==
      [] vec.kind = "ka" -> WfKeepalive(Bytes(vec))
      [] vec.kind = "comm" -> WfUpdate(Bytes(vec), TRUE)
      [] vec.kind = "updap" -> WfUpdateAP(Bytes(vec), TRUE)
+     [] vec.kind = "mp" -> WfUpdateMp(Bytes(vec), TRUE)
      [] OTHER -> TRUE
 Emit == PrintT("@W " \o ToJson([vec EXCEPT !.u = IF vec.kind = "cor" THEN [name |-> vec.u.name] ELSE vec.u] @@ [b |-> Bytes(vec)]))
 =============================================================================
